@@ -351,6 +351,11 @@ def _call(c: ast.Call, ev, t: str):
         if dt == "<torch.bool>":
             return out != 0
         return out
+    if name == "torch.cumsum" and len(c.args) >= 1:
+        x_ = ev(c.args[0])
+        rest = ast.Call(func=f, args=c.args[1:], keywords=c.keywords)
+        (dim,) = _kw(rest, ev, ["dim"], [None])
+        return np.cumsum(_as_exact(x_), axis=_axis(_int(dim), x_.ndim))
     if name in ("torch.cat", "torch.stack") and c.args:
         parts = ev(c.args[0])
         rest = ast.Call(func=f, args=c.args[1:], keywords=c.keywords)
@@ -466,6 +471,10 @@ def _call(c: ast.Call, ev, t: str):
         out = np.array(_as_exact(x), dtype=object, copy=True)
         out[mb] = flat[: int(mb.sum())]
         return out
+    if m == "cumsum":
+        (dim,) = _kw(c, ev, ["dim"], [None])
+        a_ = _axis(_int(dim), x.ndim)
+        return np.cumsum(_as_exact(x), axis=a_)
     if m == "nonzero" and not c.args and not c.keywords:
         b_ = x if x.dtype == bool else (_as_exact(x) != 0)
         return frac_array(np.argwhere(b_).tolist()) if b_.any() else np.empty((0, x.ndim), dtype=object)
